@@ -78,7 +78,8 @@ Record sys := mk_sys {
   o_reload : bool;
   o_up : coord -> Z;                (* content the upstream delivers for a tile *)
   o_expire : bool;                  (* the tile manager has an expire timestamp (refresh_before / seeding) *)
-  o_old : coord -> option Z         (* expired files present at the start (image of the file), see below *)
+  o_old : coord -> option Z;        (* expired files present at the start (image of the file), see below *)
+  o_bulk : bool                     (* tiled source + bulk_meta_tiles: _create_bulk_meta_tile, one upstream request per tile *)
 }.
 
 (* Expiry.  `cache s` holds the files that is_cached accepts: present and, with an expire timestamp, newer than
@@ -96,7 +97,7 @@ Inductive pc :=
 | Reload (t : coord) (todo : list coord)
 | Lock (m : coord) (rest : list coord)
 | Recheck (m : coord) (todo : list coord) (rest : list coord)
-| Fetch (m : coord) (rest : list coord)
+| Fetch (m : coord) (qs : list coord) (rest : list coord)   (* qs: upstream requests still to make *)
 | Store (m : coord) (todo : list coord) (rest : list coord)
 | LoadUnder (m : coord) (rest : list coord)
 | Unlock (m : coord) (after : bool) (rest : list coord)
@@ -130,6 +131,9 @@ Inductive obs :=
 Definition src_of (src : list (coord * option Z)) (t : coord) : option Z :=
   match lookup src t with Some (Some v) => Some v | _ => None end.
 Definition has_src (src : list (coord * option Z)) (t : coord) : bool := is_some (src_of src t).
+
+(* the upstream requests for unit m: one (the meta tile / the tile), or one per tile (bulk meta tile) *)
+Definition queries (S : sys) (m : coord) : list coord := if o_bulk S then o_members S m else [m].
 
 Definition next_unit (rest : list coord) : pc :=
   match rest with [] => Done | m :: r => Lock m r end.
@@ -175,7 +179,7 @@ Definition step (S : sys) (s : state) (p : nat) : state * obs :=
       | None =>
         (mk_state (cache s) ((o_key S m, p) :: locks s) (fetched s)
                   (set_nth (procs s) p
-                     (with_pc pr (if o_recheck S then Recheck m (o_members S m) rest else Fetch m rest))),
+                     (with_pc pr (if o_recheck S then Recheck m (o_members S m) rest else Fetch m (queries S m) rest))),
          OLock (o_key S m) true)
       end
     (* if not all(self.is_cached(t) for t in meta_tile.tiles if t is not None) /
@@ -185,14 +189,16 @@ Definition step (S : sys) (s : state) (p : nat) : state * obs :=
     | Recheck m (t :: todo) rest =>
       if cached (cache s) t
       then (set_proc s p (with_pc pr (Recheck m todo rest)), ORead t true)
-      else (set_proc s p (with_pc pr (Fetch m rest)), ORead t false)
+      else (set_proc s p (with_pc pr (Fetch m (queries S m) rest)), ORead t false)
     (* self._query_sources(query); split_meta_tiles *)
-    | Fetch m rest =>
-      (mk_state (cache s) (locks s) (m :: fetched s)
-                (set_nth (procs s) p
-                   (with_src pr (Store m (o_members S m) rest)
-                      (map (fun t => (t, Some (o_up S t))) (o_members S m) ++ p_src pr))),
-       OFetch m)
+    | Fetch m (q :: qs) rest =>
+      (mk_state (cache s) (locks s) (q :: fetched s)
+                (set_nth (procs s) p (with_pc pr (Fetch m qs rest))),
+       OFetch q)
+    (* all answers are there: split_meta_tiles / the tiles of the bulk requests *)
+    | Fetch m [] rest =>
+      (set_proc s p (with_src pr (Store m (o_members S m) rest)
+                      (map (fun t => (t, Some (o_up S t))) (o_members S m) ++ p_src pr)), OSilent)
     (* self.cache.store_tiles(splitted_tiles) / self.cache.store_tile(tile): one file after the other *)
     | Store m [] rest => (set_proc s p (with_pc pr (Unlock m false rest)), OSilent)
     | Store m (t :: todo) rest =>
@@ -290,8 +296,12 @@ Definition g_members (g : gconf) (m : coord) : list coord :=
 Definition g_key (g : gconf) (m : coord) : coord :=
   if g_meta g then match g_members g m with [] => m | t :: _ => meta_main g t end else m.
 
+(* tiled source with bulk_meta_tiles when bulk = true (needs a meta grid) *)
+Definition grid_sys_b (g : gconf) (recheck reload : bool) (up : coord -> Z) (expire : bool) (old : coord -> option Z)
+           (bulk : bool) : sys :=
+  mk_sys (g_main g) (g_members g) (g_key g) (negb (g_meta g)) recheck reload up expire old (bulk && g_meta g).
 Definition grid_sys_x (g : gconf) (recheck reload : bool) (up : coord -> Z) (expire : bool) (old : coord -> option Z) : sys :=
-  mk_sys (g_main g) (g_members g) (g_key g) (negb (g_meta g)) recheck reload up expire old.
+  grid_sys_b g recheck reload up expire old false.
 (* no expire timestamp, no expired files *)
 Definition grid_sys (g : gconf) (recheck reload : bool) (up : coord -> Z) : sys :=
   grid_sys_x g recheck reload up false (fun _ => None).
